@@ -251,7 +251,8 @@ def check_extract(run, tree, mesh_name):
                         problems.append("group %r: members selected with %d different masks" % (name, len(masks)))
                     for mk in masks:
                         try:
-                            atoms = mask_atoms(mk)
+                            from .core_models import unintern
+                            atoms = mask_atoms(unintern(mk))
                         except NotAMask as e:
                             raise Unsupported("mask of group %r: %s" % (name, e))
                         want = expected_atoms(kind, pos)
